@@ -21,7 +21,7 @@ Oracles (the property text, evaluated on what the real code produced):
                    (nor supplied through the productList)
   other-lines      the non-setup lines of the expanded text are the input's, unchanged and in order
   inexact          the non-exact branch carries every setup line with its original constraint
-  exact-reproduces conflict-free build => the replay records exactly the build-time versions
+  exact-reproduces-missing / -extra   conflict-free build => the replay records every build-time version / nothing else
   expansion-aborts conflict-free build that succeeded, yet the expansion raises (no table to replay)
 """
 import io
@@ -484,10 +484,18 @@ def oracle(case, res):
     r = res.get("replay")
     if r is not None and conflict_free and not case["plist"]:
         if not r["ok"]:
-            yield ("exact-reproduces", built, r["outcome"], "setup --exact from the expanded table fails")
-        elif r["records"] != built:
-            yield ("exact-reproduces", built, r["records"],
-                   "setup --exact from the expanded table records %s, the build recorded %s" % (r["records"], built))
+            yield ("exact-reproduces-missing", built, r["outcome"], "setup --exact from the expanded table fails")
+        else:
+            missing = {n: v for n, v in built.items() if r["records"].get(n) != v}
+            extra = {n: v for n, v in r["records"].items() if n not in built}
+            if missing:
+                yield ("exact-reproduces-missing", built, r["records"],
+                       "setup --exact from the expanded table does not reproduce %s (it records %s, the build recorded %s)"
+                       % (missing, r["records"], built))
+            if extra:
+                yield ("exact-reproduces-extra", built, r["records"],
+                       "setup --exact from the expanded table also sets up %s (it records %s, the build recorded %s)"
+                       % (extra, r["records"], built))
 
 
 # ------------------------------------------------------------------ model side
@@ -604,8 +612,8 @@ def evaluate(ctx, cases, results):
 def shrink_view(c, res):
     """the case as written to replays / the corpus (re-runnable), with the top table in front"""
     return {"top": c["top"], "topv": c["topv"], "table": c["world"]["products"][c["top"]][c["topv"]],
-            "built": res["build"]["records"], "plist": c["plist"], "force": c["force"], "evolve": c["evolve"],
-            "world": c["world"]}
+            "built": res["build"]["records"], "expanded": (res.get("expand") or {}).get("text"),
+            "plist": c["plist"], "force": c["force"], "evolve": c["evolve"], "world": c["world"]}
 
 
 def case_of(inp):
@@ -643,7 +651,7 @@ def has_just_line(table):
 def m_just_line(f):
     """D17: a setup line with -j whose product has a dependency that is not set up"""
     c = f["input"]
-    if f["kind"] not in ("exact-reproduces", "expansion-aborts"):
+    if f["kind"] not in ("exact-reproduces-missing", "expansion-aborts"):
         return False
     built = c["built"]
     for n in has_just_line(c["table"]):
@@ -661,6 +669,46 @@ def m_just_line(f):
     return False
 
 
+def m_empty_exact_block(f):
+    """C11's open finding D6 seen from C17: nothing was set up below the top product, so the exact block of the
+    expanded table is empty, and Table._read attributes the else branch of `if (type == exact) {} else {...}` to
+    exact mode"""
+    if f["kind"] not in ("exact-reproduces-extra", "exact-reproduces-missing", "exact-view-leak"):
+        return False
+    text = f["input"].get("expanded")
+    if not text:
+        return False
+    lines = norm_text(text)
+    pins, _, _, ok = split_views(lines)
+    return ok and "if (type == exact) {" in lines and not [p for p in pins if not p.startswith("#")]
+
+
+def m_optional_subtree(f):
+    """fallback signature should the repair of getDependentProducts not be taken: a set-up product has an optional
+    dependency that is not set up, one of whose versions requires a product that is not set up either"""
+    c = f["input"]
+    if f["kind"] not in ("exact-reproduces-missing", "expansion-aborts"):
+        return False
+    built = c["built"]
+    prods = c["world"]["products"]
+
+    def deps(n, v):
+        for ln in prods.get(n, {}).get(v, []):
+            if is_setup_line(ln):
+                try:
+                    d = classify(ln)
+                except OutOfGrammar:
+                    continue
+                yield d[2], d[1]
+    for n, v in built.items():
+        for dn, dopt in deps(n, v):
+            if dopt and dn not in built:
+                for dv in prods.get(dn, {}):
+                    if any((not o2) and n2 not in built for n2, o2 in deps(dn, dv)):
+                        return True
+    return False
+
+
 # ------------------------------------------------------------------ driver
 
 def corpus_cases():
@@ -674,7 +722,9 @@ def corpus_cases():
 
 
 def setup_ctx(ctx):
-    ctx.matchers["c17.just_line"] = m_just_line
+    ctx.matchers["c17.empty_exact_block"] = m_empty_exact_block
+    ctx.matchers["c17.just_line"] = m_just_line                 # fallbacks: only used if the repairs are not taken
+    ctx.matchers["c17.optional_subtree"] = m_optional_subtree
     ctx.rule = ("random one-stack worlds of 3-5 products x 1-3 versions (harness/setupsim.py: bare / versioned / "
                 "expression / -j, required and optional dependencies, diamonds with conflicting versions, products "
                 "without a current version); the top table is spread over several setup blocks with comments, blank "
@@ -698,7 +748,7 @@ def run(ctx):
     setup_ctx(ctx)
     ctx.check_theorems()
     cases = corpus_cases()
-    n = ctx.size(320, 6000)
+    n = ctx.size(640, 5000)
     for _ in range(n):
         cases.append(gen_case(ctx.rng))
     for c in cases[:2]:
